@@ -1,0 +1,20 @@
+//go:build !verif
+
+// Package verifhook holds the observation hooks used by the external runtime
+// verification harness. Without the "verif" build tag they are empty.
+package verifhook
+
+// Enabled reports whether the hooks are compiled in.
+const Enabled = false
+
+// Point marks a schedule point.
+func Point(name string) {}
+
+// Ev reports a state event.
+func Ev(name string, a, b uint64) {}
+
+// EvB reports a state event with a byte payload.
+func EvB(name string, a uint64, b []byte) {}
+
+// FS reports a persistence event.
+func FS(op, path string, off, n int64) {}
